@@ -131,7 +131,12 @@ func (core *JApiCore) checkPathSchemaRoot(s *jschema.JSchema) error {
 			return fmt.Errorf(`%s (%s)`, jerr.UserTypeNotFound, typeName)
 		}
 
-		return core.checkPathSchemaRoot(ut.Schema.(*catalog.ExchangeJSightSchema).JSchema)
+		es, ok := ut.Schema.(*catalog.ExchangeJSightSchema)
+		if !ok { // a regex, any or empty type cannot describe the path parameters
+			return errors.New(jerr.PathObjectErr)
+		}
+
+		return core.checkPathSchemaRoot(es.JSchema)
 	}
 
 	if s.ASTNode.TokenType != schema.TokenTypeObject {
